@@ -87,6 +87,68 @@ func init() {
 				runCfg(c, "cfg.subsets", p, []M{{"formats": fs}, {"types": ts}}, &exp)
 			}
 		}},
+		Stream{"cfg.edges", func(c *Ctx) {
+			// every honest format variant under the policies at the edge of admitting it: its own type (format) alone, its type with one
+			// other, everything but its type (format) — with and without the other kind of option, and in option lists where a later
+			// option replaces an earlier one
+			pre := build(c)
+			all7, all6 := subsetOf(sevenFormats, 127), subsetOf(sixTypes, 63)
+			yes, no := true, false
+			for _, p := range pre {
+				ty, fm := expectedType[p.format], fmtID(p.format)
+				only := func(xs []string, x string) []string { return []string{hx([]byte(x))} }
+				without := func(xs []string, x string) []string {
+					out := []string{}
+					for _, y := range xs {
+						if y != x {
+							out = append(out, hx([]byte(y)))
+						}
+					}
+					return out
+				}
+				runCfg(c, "cfg.edges", p, []M{{"types": only(sixTypes, ty)}}, &yes)
+				runCfg(c, "cfg.edges", p, []M{{"formats": only(sevenFormats, fm)}}, &yes)
+				runCfg(c, "cfg.edges", p, []M{{"formats": only(sevenFormats, fm)}, {"types": only(sixTypes, ty)}}, &yes)
+				runCfg(c, "cfg.edges", p, []M{{"types": only(sixTypes, ty)}, {"formats": all7}}, &yes)
+				runCfg(c, "cfg.edges", p, []M{{"types": without(sixTypes, ty)}}, &no)
+				runCfg(c, "cfg.edges", p, []M{{"formats": without(sevenFormats, fm)}}, &no)
+				runCfg(c, "cfg.edges", p, []M{{"formats": without(sevenFormats, fm)}, {"types": all6}}, &no)
+				for _, other := range sixTypes {
+					if other != ty {
+						runCfg(c, "cfg.edges", p, []M{{"types": []string{hx([]byte(other)), hx([]byte(ty))}}}, &yes)
+						runCfg(c, "cfg.edges", p, []M{{"types": only(sixTypes, other)}}, &no)
+						// a later option replaces an earlier one, in both directions
+						runCfg(c, "cfg.edges", p, []M{{"types": only(sixTypes, other)}, {"types": only(sixTypes, ty)}}, &yes)
+						runCfg(c, "cfg.edges", p, []M{{"types": only(sixTypes, ty)}, {"types": only(sixTypes, other)}}, &no)
+					}
+				}
+			}
+		}},
+		Stream{"cfg.creationOptions", func(c *Ctx) {
+			// the policy is the verify options and nothing else: whatever the creation options said to the CLIENT (attestation conveyance
+			// preference, authenticator attachment, resident key), without options all seven formats and all six types are admitted, and
+			// with options exactly the sets given
+			yes := true
+			for rep := 0; rep < c.N(1, 6); rep++ {
+				for _, f := range allFormats {
+					for _, pref := range []string{"", "none", "indirect", "direct", "enterprise", "Direct", "required"} {
+						s := newRegSpec(c.R, f, pick(c.R, credAlgsFor(f)))
+						s.AttAlg = pick(c.R, attAlgsFor(f))
+						s.Inert = inertOptions(c.R, s.Origin)
+						s.Inert["attestation"] = hx([]byte(pref))
+						s.Inert["selection"] = M{"attachment": hx([]byte(pick(c.R, []string{"", "platform", "cross-platform"}))), "residentKey": hx([]byte(pick(c.R, []string{"", "discouraged", "preferred", "required"}))), "requireResidentKey": c.R.Bool()}
+						if c.R.Bool() {
+							uv := pick(c.R, []string{"preferred", "discouraged", ""})
+							s.AuthSelUV = &uv
+						}
+						p := prebuilt{f, buildRegistration(c.R, s)}
+						runCfg(c, "cfg.creationOptions", p, nil, &yes)
+						runCfg(c, "cfg.creationOptions", p, []M{{"formats": subsetOf(sevenFormats, 127)}}, &yes)
+						runCfg(c, "cfg.creationOptions", p, []M{{"types": []string{hx([]byte(expectedType[f]))}}}, &yes)
+					}
+				}
+			}
+		}},
 		Stream{"cfg.optionLists", func(c *Ctx) {
 			// repeated options in any order, duplicates and unknown names inside a set: the last option of a kind decides
 			pre := build(c)
